@@ -21,7 +21,7 @@ PENS = ['L1[positive=False]', 'L1[positive=True]', 'L1_plus_L2[positive=False]',
         'WeightedL1[positive=True]', 'MCPenalty[positive=False]', 'IndicatorBox', 'PositiveConstraint']
 
 
-def cd_epoch_task(T, tag, sparse, focus, j=1, zero_col=False):
+def cd_epoch_task(T, tag, sparse, focus, j=1, zero_col=False, pshard=None):
     import z3
     from pv import sym, symrun
     from pv.sproof import check_contract, zpre
@@ -41,6 +41,8 @@ def cd_epoch_task(T, tag, sparse, focus, j=1, zero_col=False):
     pats = list(patterns(2, 2)) if sparse else [None]
     if zero_col:
         pats = [[[1, 0], [1, 0]]] if j == 1 else [[[0, 1], [0, 1]]]
+    if pshard is not None:
+        pats = [pt for k, pt in enumerate(pats) if k % pshard[1] == pshard[0]]       # CSC patterns split over worker processes
     for pat in pats:
         ptag = '' if pat is None and not zero_col else '[csc=' + ''.join(str(b) for r in pat for b in r) + ']'
         Xz = [[e.Xz(pat, i, k) for k in range(2)] for i in range(2)]
@@ -192,6 +194,10 @@ for _tag in PENS:
             if _f == 'zero-col' and _tag not in ('L1[positive=False]', 'MCPenalty[positive=False]', 'IndicatorBox'):
                 continue
             nm = f"anderson_cd:{'_cd_epoch_sparse' if _sp else '_cd_epoch'}[{_tag}]/{_f}"
-            add_task(_props, nm, cd_epoch_task, strength='B', tag=_tag, sparse=_sp, focus=_f,
-                     zero_col=(_f == 'zero-col'),
-                     tier=('thorough' if (_sp and _f not in ('inv', 'zero-col')) or (_f == 'descent' and 'MCP' in _tag) else 'quick'))
+            _tier = 'thorough' if (_sp and _f not in ('inv', 'zero-col')) or (_f == 'descent' and 'MCP' in _tag) else 'quick'
+            if _sp and _f == 'descent' and _tier == 'thorough':
+                # 16 CSC patterns x a slow nonlinear descent query: one worker process per 2 patterns
+                for _k in range(8):
+                    add_task(_props, nm + f'#{_k}', cd_epoch_task, strength='B', tag=_tag, sparse=_sp, focus=_f, tier=_tier, pshard=(_k, 8))
+            else:
+                add_task(_props, nm, cd_epoch_task, strength='B', tag=_tag, sparse=_sp, focus=_f, zero_col=(_f == 'zero-col'), tier=_tier)
